@@ -61,13 +61,37 @@ def chunks_of(traces, max_lines):
     return out
 
 
+def validate_trace(d, module, cfg_text, timeout=1800):
+    """vlib.validate_trace, tolerant of TLC wrapping long tuples over several lines."""
+    import re
+    vlib.stage_spec(d)
+    cfg = module + "_run.cfg"
+    with open(os.path.join(d, cfg), "w") as f:
+        f.write(cfg_text)
+    r = vlib.tlc(d, module, cfg, workers=1, timeout=timeout)
+    flat = re.sub(r"<<\s+", "<<", re.sub(r"\s+>>", ">>", re.sub(r",\s*\n\s*", ", ", r["out"])))
+    res = {"states": r["generated"], "distinct": r["distinct"], "out": r["out"], "err": None, "coverage": {}, "admitted": 0, "skipped": []}
+    m = vlib.ERR_RE.findall(flat)
+    if m:
+        res["err"] = (int(m[-1][0]), m[-1][1], m[-1][2])
+    c = vlib.COV_RE.findall(flat)
+    if c:
+        res["coverage"] = json.loads(c[-1][0].replace('\\"', '"'))
+        res["admitted"] = int(c[-1][1])
+    res["flat"] = flat
+    res["accepted"] = r["ok"] and not m
+    if not res["accepted"] and not m:
+        raise Infra("trace rejected without a named law:\n" + r["out"][-4000:])
+    return res
+
+
 def validate_lines(w, name, module, cfg_text, lines, extra_files=()):
     d = w.sub(name)
     with open(os.path.join(d, "trace.ndjson"), "w") as f:
         f.write("\n".join(lines) + "\n")
     for src in extra_files:
         shutil.copy(src, d)
-    return vlib.validate_trace(d, module, cfg_text)
+    return validate_trace(d, module, cfg_text)
 
 
 # =================================================================================================
@@ -174,7 +198,7 @@ def check_c17(pid, tier, seed, replay):
         stats = {"Nodes": 0, "Probes": 0, "Accepted": 0, "Rejected": 0, "Traces": 0}
         runs = [(["registry", "-seed", str(seed), "-depth", str(depth), "-random", "0", "-cfgs", cfgs], "tree%d" % k)
                 for k, (cfgs, depth) in enumerate(sz["tree"])]
-        runs.append((["registry", "-seed", str(seed), "-depth", "0", "-random", str(sz["random"]), "-len", str(sz["rlen"])], "rand"))
+        runs.append((["registry", "-seed", str(seed), "-depth", "0", "-random", str(sz["random"]), "-len", str(sz["rlen"]), "-scripted"], "rand"))
         for args, name in runs:
             dd = os.path.join(d, name)
             os.makedirs(dd)
@@ -203,13 +227,13 @@ def check_c17(pid, tier, seed, replay):
                 tr = remaining[a:b + 1]
                 idx = line - 1 - a
                 bad = path_to(tr, idx) if idx > 0 else tr[:1]
-                tid = json.loads(tr[0]).get("tid", "trace") + "-l%d" % line
+                tid = ("%s_%s" % (group, detail)).replace("/", "_")   # one replay per broken law (the latest)
                 rp = vlib.save_replay(pid, tid, [(bad, "trace.ndjson")],
                                       "law %s/%s broken at the last line of this trace (seed %d, tier %s): %s\nre-check: bin/check %s --replay <this dir>"
                                       % (group, detail, seed, tier, json.loads(tr[idx]).get("txt", "genesis"), pid))
                 with open(os.path.join(rp, "tlc.out"), "w") as f:
                     f.write(r["out"][-20000:])
-                v.violation("%s/%s" % (group, detail), rp, "trace %s, operation %s" % (tid, json.loads(tr[idx]).get("txt", "genesis")))
+                v.violation("%s/%s" % (group, detail), rp, "trace %s, operation %s" % (json.loads(tr[0]).get("tid", "trace"), json.loads(tr[idx]).get("txt", "genesis")))
                 rejected_lines += 1
                 # go on without the offending node and its subtree (a broken genesis line drops its whole trace)
                 tr2 = drop_subtree(tr, idx) if idx > 0 else []
@@ -227,7 +251,8 @@ def check_c17(pid, tier, seed, replay):
         v.cov["rule"] = ("operation trees: every sequence over the alphabet {DeployErc20 x {whitelisted, not} x {denom with supply, zero supply, "
                          "bond denom}, DeployStaking x 2 senders, UpdateParams x {gov: widen, empty, version 0; self-signed; forged authority}, "
                          "SetDisabled(each registered)} up to depth %s from each of 6 genesis configurations (exhaustive), plus %d random "
-                         "sequences of %d operations with edge-case names/symbols/decimals/denoms, Retype and protocol-version fabrication; "
+                         "sequences of %d operations with edge-case names/symbols/decimals/denoms, Retype and protocol-version fabrication, and 3 "
+                         "scripted scenarios (version downgrade refused, disable/enable, retype, redeploy, whitelist emptied / replaced); "
                          "evaluations = probe cells judged (address x mode x input x route); non-trivial = accepted (state-changing) operations"
                          % ("/".join(str(dp) for _, dp in sz["tree"]), sz["random"], sz["rlen"]))
         v.cov["samples"] = [json.loads(x).get("txt") for x in traces[0][1:6]]
@@ -250,6 +275,220 @@ def check_c17(pid, tier, seed, replay):
                          "UpdateParams with gov authority runs through a real governance proposal (submit, vote, EndBlocker execution)",
                          "CheckTx exposes no return data: the check-mode observation is the call frame seen by hook H1",
                          "candidate addresses are sampled (registered, next dynamic, neighbours, 0x0-0xa, EOA, module account, fresh)"]
+        return v.finish()
+    finally:
+        w.cleanup()
+
+
+# =================================================================================================
+# C18
+# =================================================================================================
+
+C18_SIZES = {
+    "quick": dict(traces=96, blocks=12, every=4, mc="Genesis_mc_witness.cfg", mc_workers=1),
+    "thorough": dict(traces=2400, blocks=16, every=4, mc="Genesis_mc.cfg", mc_workers=4),
+}
+
+
+def c18_cfg(known):
+    return ("SPECIFICATION TraceSpec\nCONSTANT Known = {%s}\nINVARIANT Coverage\nPOSTCONDITION TraceAccepted\nCHECK_DEADLOCK FALSE\n"
+            % ", ".join('"%s"' % k for k in sorted(known)))
+
+
+def c18_signature(group, detail):
+    if group == "RoundTrip" or (group == "Continue" and detail.startswith("Export/")):
+        return detail
+    if group == "Continue":
+        return "Continue:" + detail
+    return "%s/%s" % (group, detail)
+
+
+def extra_findings():
+    """Development aid: VERIF_EXTRA_FINDINGS=<file> is read in addition to KNOWN_FINDINGS.txt (to exercise the
+    known-finding path with proposed lines before the coordinator accepts them)."""
+    p = os.environ.get("VERIF_EXTRA_FINDINGS")
+    if not p:
+        return
+    base = vlib.known_findings
+    import re
+
+    def merged():
+        out = base()
+        for ln in vlib.read_lines(p):
+            m = re.match(r"finding:\s+property=(\S+)\s+signature=(\S+)\s+(.*)", ln)
+            if m:
+                out.setdefault(m.group(1), {})[m.group(2)] = m.group(3)
+        return out
+    vlib.known_findings = merged
+
+
+def c18_mc(v, w, tier):
+    d = w.sub("mc")
+    vlib.stage_spec(d)
+    sz = C18_SIZES[tier]
+    # the small domain with the vacuity witnesses (every deviation occurs, plain worlds and zero-valued slots exist)
+    r = vlib.tlc(d, "Genesis_mc", "Genesis_mc_witness.cfg", workers=1, timeout=1200)
+    if r["violated"]:
+        raise Infra("design model Genesis_mc: theorem violated or a witness unreachable (specification bug):\n" + r["out"][-2500:])
+    if sz["mc"] != "Genesis_mc_witness.cfg":
+        r = vlib.tlc(d, "Genesis_mc", sz["mc"], workers=sz["mc_workers"], timeout=6000)
+        if r["violated"]:
+            raise Infra("design model Genesis_mc violates the round-trip theorem (specification bug):\n" + r["out"][-2500:])
+    v.add_mc(r)
+    log("design run Genesis_mc/%s: %d worlds, specified export/import round-trips every one; the implementation model loses exactly the named deviations"
+        % (sz["mc"], r["distinct"] - 1))
+
+
+def c18_corruptions(trace):
+    out = []
+    for i, ln in enumerate(trace):
+        e = json.loads(ln)
+        if e["ev"] != "RoundTrip" or e["failed"] != "none":
+            continue
+        # (a) a re-imported base fee off by one
+        e1 = json.loads(ln)
+        e1["B"]["fm"]["baseFee"] += 1
+        e1["B"]["fm"]["qBaseFee"] += 1
+        out.append(("B.fm.baseFee of line %d" % (i + 1), trace[:i] + [json.dumps(e1)] + trace[i + 1:]))
+        # (b) a storage value of a contract with code changed in the re-imported state
+        e2 = json.loads(ln)
+        done = False
+        for a in sorted(e2["B"]["evm"]["stor"]):
+            for s in sorted(e2["B"]["evm"]["stor"][a]):
+                if e2["B"]["evm"]["stor"][a][s] > 0:
+                    e2["B"]["evm"]["stor"][a][s] += 1
+                    if a in e2["B"]["evm"]["qstor"] and s in e2["B"]["evm"]["qstor"][a]:
+                        e2["B"]["evm"]["qstor"][a][s] += 1
+                    done = True
+                    break
+            if done:
+                break
+        if done:
+            out.append(("B.evm.stor of line %d" % (i + 1), trace[:i] + [json.dumps(e2)] + trace[i + 1:]))
+        # (c) the second export differs
+        e3 = json.loads(ln)
+        e3["X2"]["rawTok"]["feemarket"] = "sX"
+        out.append(("X2.rawTok.feemarket of line %d" % (i + 1), trace[:i] + [json.dumps(e3)] + trace[i + 1:]))
+        if done:
+            break
+        out = []
+    if len(out) < 3:
+        raise Infra("self-test: no round-trip record with contract storage to corrupt")
+    return out
+
+
+@register("C18")
+def check_c18(pid, tier, seed, replay):
+    extra_findings()
+    v = Verdict(pid, tier, seed)
+    w = Work(pid)
+    try:
+        if replay:
+            lines = vlib.read_lines(os.path.join(replay, "trace.ndjson"))
+            r = validate_lines(w, "replay", "TraceGenesis", c18_cfg(set()), lines)
+            if r["err"]:
+                log("replay: rejected at line %d: %s / %s" % r["err"])
+                log("VIOLATION property=%s replay=%s" % (pid, replay))
+                return 1
+            log("replay: accepted")
+            return 0
+        vlib.build("vh_misc")
+        c18_mc(v, w, tier)
+        sz = C18_SIZES[tier]
+        d = w.sub("traces")
+        run_shards(["genesis", "-seed", str(seed), "-traces", str(sz["traces"]), "-blocks", str(sz["blocks"]), "-every", str(sz["every"])], d, NPROC)
+        lines, stats = [], {}
+        for i in range(NPROC):
+            lines += vlib.read_lines(os.path.join(d, "trace-%d.ndjson" % i))
+            with open(os.path.join(d, "stats-%d.json" % i)) as f:
+                for k, n in json.load(f).items():
+                    stats[k] = stats.get(k, 0) + n
+        traces = split_traces(lines)
+        nrec = sum(1 for ln in lines if '"ev":"RoundTrip"' in ln)
+        log("driver: %d histories, %d round-trip records (state, export, re-imported state, second export, continuation)" % (len(traces), nrec))
+        known = set()          # deviations tolerated so far (every one is reported once)
+        cov_total, states, used = {}, 0, set()
+        rejected = 0
+        incomplete = False
+        for rounds in range(12):
+            r = None
+            cov_total, used_round = {}, set()
+            broke = None
+            for ci, chunk in enumerate(chunks_of(traces, 1500)):
+                chunk_lines = [ln for t in chunk for ln in t]
+                r = validate_lines(w, "val%d_%d" % (rounds, ci), "TraceGenesis", c18_cfg(known), chunk_lines)
+                states += r["states"]
+                if r["err"] is not None:
+                    broke = (r, chunk_lines)
+                    break
+                for k, n in r["coverage"].items():
+                    cov_total[k] = cov_total.get(k, 0) + n
+                import re
+                m = re.findall(r'<<"DEVIATIONS", \{(.*?)\}>>', r["flat"])
+                if m:
+                    used_round |= set(re.findall(r'"([^"]+)"', m[-1]))
+            if broke is None:
+                used = used_round
+                break
+            r, chunk_lines = broke
+            line, group, detail = r["err"]
+            sig = c18_signature(group, detail)
+            a, b = vlib.trace_of_line(chunk_lines, line)
+            bad = [chunk_lines[a], chunk_lines[line - 1]]
+            e = json.loads(chunk_lines[line - 1])
+            tid = sig.replace("/", "_").replace(":", "_")   # one replay per broken law (the latest), so the directory stays bounded
+            rp = vlib.save_replay(pid, tid, [(bad, "trace.ndjson")],
+                                  "law %s broken by the round-trip record of this trace (seed %d, tier %s, history so far: %s)\nre-check: bin/check %s --replay <this dir>"
+                                  % (sig, seed, tier, json.dumps(e.get("hist", {})), pid))
+            with open(os.path.join(rp, "tlc.out"), "w") as f:
+                f.write(r["out"][-20000:])
+            v.violation(sig, rp, "history %s, round trip %s at height %s%s" % (e.get("tid"), e.get("k"), e.get("h"), "" if e.get("failed", "none") == "none" else ": " + e["failed"]))
+            rejected += 1
+            if sig.startswith("Export/") and sig not in known:
+                known.add(sig)   # go on under the named deviation: every other loss must still be reported
+                continue
+            # not a named deviation: drop the offending history and go on, unless the same law broke before (enough)
+            traces = [t for t in traces if json.loads(t[0]).get("tid") != e.get("tid")]
+            if sum(1 for x in v.violations if x[0] == sig) > 1 or len(v.violations) >= 10:
+                incomplete = True
+                break
+        else:
+            raise Infra("trace validation did not converge in 12 rounds")
+        v.cov["states"] += states
+        v.cov["transitions"] += states
+        v.cov["traces_validated_against_impl"] = cov_total.get("roundtrips", 0)
+        v.cov["evaluations"] = nrec
+        v.cov["distinct_nontrivial"] = sum(cov_total.get(k, 0) for k in ("with.contract-storage",))
+        v.cov["classes"] = cov_total
+        v.cov["history_ops"] = {k[5:]: n for k, n in stats.items() if k.startswith("hist.")}
+        v.cov["deviations_needed"] = sorted(used)
+        v.cov["rule"] = ("seeded histories of %d generator steps (contract deployments with constructor storage incl. slots set back to zero and empty "
+                         "runtime code, calls that set / zero / delete slots and self-destruct, message-deployed ERC-20 and staking precompiles, "
+                         "approvals through an ERC-20 precompile, ownership proofs, governance changes of evm / feemarket / cpc params, disabled flags, "
+                         "full and empty blocks moving the base fee; genesis contracts with zero-valued and code-less storage), a round trip every %d "
+                         "steps; non-trivial = round-trip records whose state holds contract storage; classes count the records holding each kind of content"
+                         % (sz["blocks"], sz["every"]))
+        v.cov["samples"] = [json.loads(x).get("hist") for x in lines if '"ev":"RoundTrip"' in x][:3]
+        # binding self-test under the deviations found (so that only the corrupted field can be the reason)
+        first = next(t for t in traces if any('"failed":"none"' in x for x in t))
+        tests = []
+        for what, bad in c18_corruptions(first):
+            rs = validate_lines(w, "selftest%d" % len(tests), "TraceGenesis", c18_cfg(known), bad)
+            if rs["err"] is None:
+                raise Infra("binding self-test failed (binding vacuous): corrupted %s was accepted" % what)
+            tests.append("%s -> %s/%s" % (what, rs["err"][1], rs["err"][2]))
+            log("binding self-test: corrupted %s rejected with %s/%s" % (what, rs["err"][1], rs["err"][2]))
+        v.cov["selftest"] = tests
+        need = ["with.contract-storage", "with.zero-valued-slots", "with.codeless-storage", "with.erc20-precompiles", "with.allowances", "with.proofs"]
+        missing = [k for k in need if not cov_total.get(k)]
+        if incomplete:
+            v.cov["note"] = "validation stopped after the same law broke in two histories; coverage numbers are partial"
+        elif missing:
+            raise Infra("conformance run vacuous: content classes never seen: %s" % missing)
+        v.assumptions = ["block hashes of the old chain (BLOCKHASH) and transient stores are not part of the compared observation",
+                         "the second export of the re-imported state is taken with the modules' ExportGenesis functions on the InitChain state "
+                         "(ExportAppStateAndValidators needs a commit); the full export is compared after one identical empty block on both chains",
+                         "256-bit values are compared as tokens", "disabled flags are set through the keeper (no message exists)"]
         return v.finish()
     finally:
         w.cleanup()
